@@ -304,3 +304,71 @@ func c13CredentialsSection(t *testing.T, rep *verifkit.Report) {
 		rep.Inconcl("fewer than 5 upgrades with an unhashable password failed cleanly")
 	}
 }
+
+// c13RepeatSection upgrades the same document four times in one process (and
+// once more through a split at the last step) and requires identical bytes:
+// the result of an upgrade is a function of the document.  Lists are compared
+// in order.  Documents: the multi-filter, multi-client and full synthetic
+// documents and the goldens that need no salted hash.
+func c13RepeatSection(t *testing.T, rep *verifkit.Report, seeds []c13Seed) {
+	work := t.TempDir()
+	mig := configmigrate.New(&configmigrate.Config{WorkingDir: work, DataDir: filepath.Join(work, "data")})
+	for _, s := range seeds {
+		if s.Raw || strings.HasPrefix(s.Name, "min:") {
+			continue
+		}
+		root := c13DecodeSeed(s)
+		from := c13StatedVersion(root)
+		if root == nil || from < 0 || from >= c13Last || c13WouldHash(from, root) {
+			continue
+		}
+		if !verifkit.Thorough() && !strings.HasPrefix(s.Name, "filters#") && from%3 != 0 {
+			continue
+		}
+		first := c13Run(mig, s.Body, uint(c13Last))
+		if first.Panicked || first.Err != nil {
+			continue
+		}
+		rep.Eval(true, "repeat|"+string(s.Body))
+		rep.Class("repeat")
+		wit := map[string]any{"seed_document": s.Name, "stated_version": from, "document": c13BodyText(s.Body), "first_result": c13BodyText(first.Body)}
+		same := true
+		for i := 2; i <= 5 && same; i++ {
+			var o c13Out
+			mode := fmt.Sprintf("upgrade no. %d", i)
+			if i < 5 || from >= c13Last-1 {
+				o = c13Run(mig, s.Body, uint(c13Last))
+			} else {
+				// Through a split right before the last step.
+				mode = fmt.Sprintf("split run at %d", c13Last-1)
+				a := c13Run(mig, s.Body, uint(c13Last-1))
+				if a.Panicked || a.Err != nil {
+					break
+				}
+				o = c13Run(mig, a.Body, uint(c13Last))
+			}
+			rep.Event("repeated_upgrades_compared")
+			if o.Panicked || o.Err != nil || !bytes.Equal(o.Body, first.Body) {
+				same = false
+				var a, b map[string]any
+				_ = yaml.Unmarshal(first.Body, &a)
+				_ = yaml.Unmarshal(o.Body, &b)
+				d := c13FirstDiff(a, b, "")
+				if d == "" {
+					d = "<outcome-or-bytes-only>"
+				}
+				wit["differing_result"] = c13BodyText(o.Body)
+				wit["differing_run"] = mode
+				wit["error"] = fmt.Sprint(o.Err, o.PanicVal)
+				rep.Violate("repeat:identical-upgrades-differ:"+d,
+					fmt.Sprintf("the same document upgraded again in the same process (%s) gives a different result than the first upgrade; first difference at %s", mode, d), wit)
+			}
+		}
+		if same {
+			rep.Event("documents_with_identical_repeated_upgrades")
+		}
+	}
+	if rep.Events["documents_with_identical_repeated_upgrades"] < 80 && !rep.Violated() {
+		rep.Inconcl("fewer than 80 documents were upgraded repeatedly")
+	}
+}
